@@ -13,6 +13,7 @@
 #include <fcppt/enum/from_int.hpp>
 #include <fcppt/enum/size.hpp>
 #include <fcppt/math/ceil_div.hpp>
+#include <fcppt/math/ceil_div_static.hpp>
 #include <fcppt/math/ceil_div_signed.hpp>
 #include <fcppt/math/clamp.hpp>
 #include <fcppt/math/diff.hpp>
@@ -845,6 +846,50 @@ void float_mod_other(char const *fname)
     }
 }
 
+// ceil_div_static<T, a, b>: the compile-time form of ceil_div - every instantiation is the constant ceil(a / b)
+template <class T, T A, T B>
+void cds_one()
+{
+  T const got = fcppt::math::ceil_div_static<T, A, B>::value;
+  T const want = static_cast<T>(A / B + (A % B != 0 ? 1 : 0));
+  VF_COUNT("ceil_div_static/instantiations");
+  if (got != want)
+    vf::violation("ceil_div_static/value", "mismatch", "ceil_div_static<" + std::to_string(A) + "," + std::to_string(B) + "> = " + std::to_string(got) + " want " + std::to_string(want));
+}
+template <class T, T A>
+void cds_row()
+{
+  cds_one<T, A, 1>();
+  cds_one<T, A, 2>();
+  cds_one<T, A, 3>();
+  cds_one<T, A, 7>();
+  cds_one<T, A, 8>();
+  cds_one<T, A, 64>();
+}
+template <class T>
+void ceil_div_static_all(char const *tname)
+{
+  std::string e = std::string("ceil_div_static<") + tname + ">";
+  if (!vf::entry_enabled(e) || !vf::mine(vf::hash_str(e)))
+    return;
+  vf::set_entry(e);
+  if (!vf::begin_case("dividends 0,1,2,6,7,8,9,63,64,65,max against divisors 1,2,3,7,8,64"))
+    return;
+  vf::note_distinct(vf::hash_str(e));
+  cds_row<T, 0>();
+  cds_row<T, 1>();
+  cds_row<T, 2>();
+  cds_row<T, 6>();
+  cds_row<T, 7>();
+  cds_row<T, 8>();
+  cds_row<T, 9>();
+  cds_row<T, 63>();
+  cds_row<T, 64>();
+  cds_row<T, 65>();
+  cds_row<T, std::numeric_limits<T>::max()>();
+  vf::add_evals(66);
+}
+
 #ifndef VF_SLICE
 #define VF_SLICE -2 // single translation unit build: everything
 #endif
@@ -914,6 +959,9 @@ void vf_slice_5()
   float_mod();
   float_mod_other<float>("float");
   float_mod_other<long double>("long double");
+  ceil_div_static_all<unsigned>("unsigned");
+  ceil_div_static_all<std::uint8_t>("u8");
+  ceil_div_static_all<std::uint64_t>("u64");
   observe_interval_distance();
 }
 #endif
